@@ -17,3 +17,16 @@ Lemma layout_as_modelled_l :
   filter (fun p => snd p <? 3) finalised_types = [(iport_tag, 1); (iport_tag + 1, 1); (fileno_tag, 2)] /\
   gc_phases = [1; 2; 3; 4; 5].
 Proof. repeat split; reflexivity. Qed.
+
+(** sexp_mark_weak_extras has the control skeleton Model.v mirrors (eph_loop = do { changed_p = 0; walk } while
+    (changed_p); eph_pass = the walk of all heaps by increasing address skipping free chunks; eph_visit = marked
+    object of a type with a weak range and extra slots, live_p = some weak slot is an immediate or marked;
+    mark_extras = each unmarked pointer among the extra slots goes through sexp_mark and changed_p is set iff that
+    marked it — [scan_rerun = [1]]: NO further condition on where the value lies), and nothing else *)
+Lemma scan_skeleton_as_modelled_l :
+  scan_loop = 1 /\ scan_pieces = [1; 1; 1; 1; 1; 1] /\ scan_rerun = [1] /\ scan_nothing_else = 1.
+Proof. repeat split; reflexivity. Qed.
+
+(** (close-file-descriptor fileno) clears the open flag of the fileno object (History.v OCloseFd = finalize_fileno) *)
+Lemma close_fd_as_modelled_l : close_fd_marks_fileno_closed = 1.
+Proof. reflexivity. Qed.
